@@ -165,6 +165,70 @@ def hdf5_history(hid, clsname, variants, rng, tmpdir):
     return {"id": hid, "cls": clsname, "ev": ev}
 
 
+def twins(o):
+    """same-shape twins of o: (different values, same dtypes) and (other dtypes where the class accepts them)"""
+    out = []
+    for mode in ("values", "dtypes"):
+        t = copy.deepcopy(o)
+        changed = 0
+        for a in ATTRS:
+            x = getattr(t, a, None)
+            if not isinstance(x, np.ndarray) or x.size == 0 or a.endswith(("_stix", "_spix", "_len")) or a in ("taxa_grp_name", "vrnt_chrgrp_name"):
+                continue
+            try:
+                if mode == "values":
+                    if x.dtype == object:
+                        y = np.array([str(v) + "~" for v in x.ravel()], dtype=object).reshape(x.shape)
+                    elif x.dtype == bool:
+                        y = ~x
+                    elif np.issubdtype(x.dtype, np.floating):
+                        y = x + 0.5
+                    elif a == "mat":
+                        y = ((x + 1) % 2).astype(x.dtype)
+                    else:
+                        continue      # integer label arrays (groups, positions) keep their values
+                else:
+                    if np.issubdtype(x.dtype, np.floating):
+                        y = np.rint(x).astype("int64") if a in ("location", "scale", "beta", "u_a", "u_d", "u_misc") else x.astype("float32")
+                        if a == "scale":
+                            y = np.where(y == 0, 1, y)
+                    elif x.dtype == np.int64:
+                        y = x.astype("int32")
+                    else:
+                        continue
+                setattr(t, a, y)
+                changed += 1
+            except Exception:
+                pass
+        if changed:
+            out.append((mode, t))
+    return out
+
+
+def twin_history(hid, clsname, o, tw, mode, rng, tmpdir):
+    cls = type(o)
+    fn = os.path.join(tmpdir, "t%d.h5" % hid)
+    loc = rng.choice([None, "g", "g/h/"])
+    ev = []
+    for first, second in ((tw, o), (o, tw)):
+        for obj in (first, second):
+            e = {"op": "write", "loc": str(loc), "obj": proj(obj), "how": "str", "err": None}
+            try:
+                obj.to_hdf5(fn, loc)
+            except Exception as ex:
+                e["err"] = "%s: %s" % (type(ex).__name__, str(ex)[:150])
+            ev.append(e)
+            if e["err"]:
+                return {"id": hid, "cls": clsname, "ev": ev, "writefail": e["err"], "twin": mode}
+        r = {"op": "read", "loc": str(loc), "err": None, "obj": {}}
+        try:
+            r["obj"] = proj(cls.from_hdf5(fn, loc))
+        except Exception as ex:
+            r["err"] = "%s: %s" % (type(ex).__name__, str(ex)[:150])
+        ev.append(r)
+    return {"id": hid, "cls": clsname, "ev": ev, "twin": mode}
+
+
 def mutate_inplace(obj):
     n = 0
     for a in ATTRS:
@@ -403,6 +467,10 @@ def run(ctx):
             for o in variants[:(4 if thorough else 2)]:
                 hid += 1
                 hist.append(copy_history(hid, clsname, o))
+            for o in variants[:(3 if thorough else 1)]:
+                for mode, tw in twins(o):
+                    hid += 1
+                    hist.append(twin_history(hid, clsname, o, tw, mode, rng, tmpdir))
         for h in roundtrip_histories(hid, rng, tmpdir, thorough):
             for e in h["ev"]:
                 hid += 1000
